@@ -2810,3 +2810,22 @@ V('c07-envelope-twin-local-fields', 'C07', 'R7.15', RESPFETCH,
   '''        subject = String.build(self.subject)
         return List([datetime,
                      subject,''', expect='silent')
+RESPINIT2 = 'pymap/parsing/response/__init__.py'
+RESPSPEC2 = 'pymap/parsing/response/specials.py'
+V('c01-revert-merge-barrier', 'C01', 'R1.12', RESPINIT2,
+  '''                if resp.renumbers:
+                    # the same sequence number is another message from here
+                    self._mergeable.clear()
+''', '')
+V('c01-expunge-does-not-renumber', 'C01', 'R1.12', RESPSPEC2,
+  '''    renumbers = True
+
+    def __init__(self, seq: int) -> None:''',
+  '''    def __init__(self, seq: int) -> None:''')
+V('c01-merge-barrier-twin-isinstance', 'C01', 'R1.12', RESPINIT2,
+  '''                if resp.renumbers:
+                    # the same sequence number is another message from here
+                    self._mergeable.clear()
+''', '''                if resp.renumbers:
+                    self._mergeable = {}
+''', expect='silent')
